@@ -112,10 +112,12 @@ package selector
 //@   ensures [C14,C12] wf: result1 == nil ==> (forall i int :: 0 <= i && i < len(result0) ==> wfSeg(result0[i]))
 //@   ensures [C14,C12] ownbounds: result1 == nil ==> (forall i int, j int :: 0 <= i && i < j && j < len(result0) && len(result0[i].slice) == 2 && len(result0[j].slice) == 2 ==> !samebase(result0[i].slice, result0[j].slice))
 //@   ensures [C14] rejected: result1 != nil ==> result0 == nil
+//@   ensures [C14] quoted: result1 == nil ==> (forall i int :: 0 <= i && i < len(result0) && len(result0[i].str) >= 2 && result0[i].str[1] == '"' ==> segField(result0[i]))
 //@   loop 0: invariant 0 <= k && k <= len(ranged) && len(sel) == k && (sel == nil || fresh(sel))
 //@   loop 0: invariant texts: forall i int :: 0 <= i && i < k ==> (sel[i].str == ranged[i] || (sel[i].identity && sel[i].str == "."))
 //@   loop 0: invariant wf: forall i int :: 0 <= i && i < k ==> wfSeg(sel[i])
 //@   loop 0: invariant owned: forall i int :: 0 <= i && i < k && len(sel[i].slice) == 2 ==> allocated(sel[i].slice)
 //@   loop 0: invariant ownbounds: forall i int, j int :: 0 <= i && i < j && j < k && len(sel[i].slice) == 2 && len(sel[j].slice) == 2 ==> !samebase(sel[i].slice, sel[j].slice)
+//@   loop 0: invariant optflag: forall i int :: 0 <= i && i < k && !sel[i].identity ==> sel[i].optional == (len(ranged[i]) > 0 && ranged[i][len(ranged[i]) - 1] == '?')
 //@   loop 0: invariant quoted: forall i int :: 0 <= i && i < k && len(sel[i].str) >= 2 && sel[i].str[1] == '"' ==> segField(sel[i])
 //@           decreases len(ranged) - k
